@@ -29,10 +29,16 @@
 //   - Command options: -e N / --with-indels are only combined with sheets that do
 //     not declare primer_mismatches / indels themselves (precedence is not
 //     documented).  -e 0 means "no mismatch allowed".
-//   - Primers: 8..36 IUPAC letters (never 64: known finding C10 patlen64), budgets
-//     0..3.  Reads: lower-case acgt.  With primer indels allowed, reads are longer
-//     than every primer (known finding C10 indel_seq_not_longer_than_pattern,
-//     reachable through obimultiplex: excluded by construction, counted).
+//   - Primers: IUPAC words of (8 + 3 x largest mismatch budget of the sheet)..36
+//     letters (never 64: known finding C10 patlen64), budgets 0..3: with shorter
+//     primers nearly every read carries accidental sites and nothing is determined.
+//     Reads: lower-case acgt; empty reads only in-process (an empty FASTA record is
+//     the file parsers' subject, C01).  With primer indels allowed, reads are longer
+//     than every primer (known finding key=indel_read_not_longer_than_primer, the
+//     C10 finding indel_seq_not_longer_than_pattern reached through obimultiplex:
+//     excluded by construction, counted).
+//   - tag_indels is smaller than the tag length (a larger value makes
+//     lookForRescueTag index past its fragment: a meaningless configuration).
 //   - The constructive and the strand-symmetry clauses are asserted when the
 //     priming sites of the read, found by an independent brute-force scan of all
 //     four orientations of all primers (IUPAC Hamming distance; Sellers edit
@@ -89,7 +95,7 @@ func TestMain(m *testing.M) {
 		evid.Spec{Name: "TestPropCLI", Kind: "rapid", Quick: 480, Thorough: 12000, QuickShards: 8, ThoroughShards: 16},
 	)
 	evid.Commands("obimultiplex")
-	evid.Note("rule", "A case is a sample sheet (text or CSV format; 1-3 markers with pairwise different IUPAC primers of 8..36 nt; per marker and side one tag length 0..8, absent / asymmetric tags, 1-5 tags per side at pairwise distance >= 1..3, 1-8 declared tag pairs; CSV parameter lines for spacers 0..5, strict/hamming/indel matching, primer mismatches 0..3, primer indels, tag delimiter and tag indels in their global, forward_/reverse_ and per-primer forms; -e / --with-indels) plus 6-14 reads built by construction: flank + tag + spacer + primer with 0..budget(+1) mismatches + barcode + the same on the other strand, in either orientation, with declared / undeclared / random tag pairs, tag substitutions and indels, chimeras of 2-3 amplicons in mixed orientations, truncated or one-primer reads, random reads. Every read is submitted as is and reverse-complemented, in-process (obiformats.ReadNGSFilter + NGSLibrary.ExtractMultiBarcodeSliceWorker, as obimultiplex does) and in batches through the real command `obimultiplex -t sheet [-u file | --keep-errors] [-e N] [--with-indels]` (fasta and fastq). Oracles: (1) constructive - an independent brute-force scan (IUPAC Hamming / Sellers) of the four orientations of every primer; when the sites are exactly well-formed pairs the expected records (barcode forward->reverse, qualities, direction, primers, matches, error counts, tags at spacer distance, sample/experiment/annotations or error flag by own exact / unique-nearest Hamming / Levenshtein lookup) are compared as a multiset; no site at all -> one flagged copy of the read; (2) strand symmetry between the two runs; (3) safety on every record of every read: flagged, or assigned to the sample its reported tags designate, matches within budget at the reported distance, pieces adjacent in the read. Non-trivial = a determined amplicon assigned to a sample with >= 1 primer mismatch, a non-zero spacer next to a tag, or read in reverse orientation. Distinct = hash of (sheet text, options, read).")
+	evid.Note("rule", "A case is a sample sheet (text or CSV format; 1-3 markers with pairwise different IUPAC primers of (8+3*budget)..36 nt; per marker and side one tag length 0..8, absent / asymmetric tags, 1-5 tags per side at pairwise distance >= 1..3, 1-8 declared tag pairs; CSV parameter lines for spacers 0..5, strict/hamming/indel matching, primer mismatches 0..3, primer indels, tag delimiter and tag indels in their global, forward_/reverse_ and per-primer forms; -e / --with-indels) plus 6-14 reads built by construction: flank + tag + spacer + primer with 0..budget(+1) mismatches + barcode + the same on the other strand, in either orientation, with declared / undeclared / random tag pairs, tag substitutions and indels, chimeras of 2-3 amplicons in mixed orientations, truncated or one-primer reads, random reads. Every read is submitted as is and reverse-complemented, in-process (obiformats.ReadNGSFilter + NGSLibrary.ExtractMultiBarcodeSliceWorker, as obimultiplex does) and in batches through the real command `obimultiplex -t sheet [-u file | --keep-errors] [-e N] [--with-indels]` (fasta and fastq). Oracles: (1) constructive - an independent brute-force scan (IUPAC Hamming / Sellers) of the four orientations of every primer; when the sites are exactly well-formed pairs the expected records (barcode forward->reverse, qualities, direction, primers, matches, error counts, tags at spacer distance, sample/experiment/annotations or error flag by own exact / unique-nearest Hamming / Levenshtein lookup) are compared as a multiset; no site at all -> one flagged copy of the read; (2) strand symmetry between the two runs; (3) safety on every record of every read: flagged, or assigned to the sample its reported tags designate, matches within budget at the reported distance, pieces adjacent in the read. Non-trivial = a determined amplicon assigned to a sample with >= 1 primer mismatch, a non-zero spacer next to a tag, or read in reverse orientation. Distinct = hash of (sheet text, options, read).")
 	evid.Main(m, "C12")
 }
 
